@@ -7,7 +7,7 @@
    4. grouping keys: equal key <-> equal canonical JSON value (C14), what that means for scalars *)
 From Coq Require Import Lia ZifyBool SpecFloat Permutation Sorted.
 From BS Require Import Model.Base Model.Num Model.Arith Model.Compare Model.Json Model.Data Proofs.BaseFacts.
-From BS Require Model.NumText Proofs.C13.
+From BS Require Model.NumText Proofs.C13 Proofs.C14a Proofs.C14b Proofs.C14 Proofs.C11.
 Local Open Scope Z_scope.
 
 (* ================================================================== 1. rows *)
@@ -490,4 +490,305 @@ Proof.
       { exact It'. }
       exists ((f, f) :: added). rewrite H1, <- app_assoc. split; [reflexivity|]. split; [cbn; rewrite H2; reflexivity|].
       constructor; [|exact H3]. left. auto.
+Qed.
+
+(* the renaming map of two tables: always computed (the loop never runs out of fuel), one entry per right field name *)
+Lemma field_names_nodup_aux acc r : NoDup acc -> NoDup (add_names acc r).
+Proof.
+  unfold add_names. revert acc. induction r as [|[k v] t IH]; intros acc ND; cbn; [exact ND|].
+  apply IH. destruct (str_mem k acc) eqn:E; [exact ND|]. apply NoDup_snoc; [exact ND|].
+  intros H. apply (proj2 (str_mem_In _ _)) in H. congruence.
+Qed.
+Lemma field_names_nodup data : NoDup (field_names data).
+Proof.
+  unfold field_names. assert (G : forall acc, NoDup acc -> NoDup (fold_left add_names data acc)).
+  { induction data as [|r t IH]; intros acc ND; cbn; [exact ND|]. apply IH. apply field_names_nodup_aux. exact ND. }
+  apply G. constructor.
+Qed.
+
+Lemma add_names_In acc r k : In k (add_names acc r) <-> In k acc \/ In k (map fst r).
+Proof.
+  unfold add_names. revert acc. induction r as [|[k' v] t IH]; intros acc; cbn; [tauto|].
+  rewrite IH. destruct (str_mem k' acc) eqn:E.
+  - apply (proj1 (str_mem_In _ _)) in E. split; [tauto|]. intros [H|[H|H]]; auto. subst. auto.
+  - rewrite in_app_iff. cbn. tauto.
+Qed.
+Lemma field_names_In data k : In k (field_names data) <-> exists r, In r data /\ In k (map fst r).
+Proof.
+  unfold field_names.
+  assert (G : forall acc, In k (fold_left add_names data acc) <-> In k acc \/ exists r, In r data /\ In k (map fst r)).
+  { induction data as [|r t IH]; intros acc; cbn.
+    - split; [auto|]. intros [H|[r [[] _]]]. exact H.
+    - rewrite IH, add_names_In. split.
+      + intros [[H|H]|[r' [H1 H2]]]; eauto.
+      + intros [H|[r' [[<-|H1] H2]]]; eauto. }
+  rewrite G. cbn. split; [intros [[]|H]; exact H|auto].
+Qed.
+
+Lemma right_names_spec left_data right_data :
+  exists names, right_names left_data right_data = Some names /\
+                names_ok (field_names left_data) (field_names right_data) (field_names right_data) names.
+Proof.
+  unfold right_names.
+  destruct (right_names_loop_spec (field_names left_data) (field_names right_data) (field_names right_data) [])
+    as [added [H1 H2]]; [intros x []|apply incl_refl|].
+  exists added. split; [exact H1|exact H2].
+Qed.
+
+Lemma names_ok_assoc left raw names f : NoDup raw -> names_ok left raw raw names -> In f raw ->
+  exists u, assoc f names = Some u /\ In (f, u) names.
+Proof.
+  intros ND [Hk _] Hf. rewrite <- Hk in Hf. clear ND Hk.
+  induction names as [|[f' u'] t IH]; cbn in *; [tauto|].
+  destruct (str_eqb f f') eqn:E.
+  - apply str_eqb_eq in E. subst. eauto.
+  - destruct Hf as [->|Hf]; [rewrite str_eqb_refl in E; discriminate|]. destruct (IH Hf) as [u [H1 H2]]. eauto.
+Qed.
+
+(* never a left field name; never an un-renamed right field name unless it is that field itself *)
+Lemma rename_not_left left raw names f : NoDup raw -> names_ok left raw raw names -> In f raw -> ~ In (rename names f) left.
+Proof.
+  intros ND OK Hf. destruct (names_ok_assoc _ _ _ _ ND OK Hf) as [u [H1 H2]]. unfold rename. rewrite H1.
+  destruct OK as [_ F]. rewrite Forall_forall in F. specialize (F _ H2). cbn in F.
+  destruct F as [[N ->]|[_ [N _]]]; intros X; apply (proj2 (str_mem_In _ _)) in X; congruence.
+Qed.
+
+Lemma str_prefix_app a b : str_prefix a (a ++ b) = true.
+Proof. induction a as [|c a IH]; cbn; [destruct b; reflexivity|]. rewrite N.eqb_refl. exact IH. Qed.
+
+Lemma digit_collision f1 f2 i j : 0 <= i -> 0 <= j -> f1 ++ Z_to_str i = f2 ++ Z_to_str j -> f1 <> f2 ->
+  is_digit_ext f1 f2 = true \/ is_digit_ext f2 f1 = true.
+Proof.
+  intros Hi Hj H N. apply app_eq_app in H as [l [[E1 E2]|[E1 E2]]].
+  - (* f1 = f2 ++ l, str j = l ++ str i *)
+    right. unfold is_digit_ext. subst f1. rewrite str_prefix_app. cbn.
+    assert (l <> []) by (intros ->; rewrite app_nil_r in N; congruence).
+    rewrite app_length. assert ((length f2 + length l =? length f2)%nat = false) as -> by (destruct l; [congruence|cbn; apply Nat.eqb_neq; lia]).
+    cbn. rewrite skipn_app, skipn_all, Nat.sub_diag. cbn.
+    pose proof (Z_to_str_digits j Hj) as D. rewrite E2, forallb_app in D. apply andb_prop in D as [D _]. exact D.
+  - left. unfold is_digit_ext. subst f2. rewrite str_prefix_app. cbn.
+    assert (l <> []) by (intros ->; rewrite app_nil_r in N; congruence).
+    rewrite app_length. assert ((length f1 + length l =? length f1)%nat = false) as -> by (destruct l; [congruence|cbn; apply Nat.eqb_neq; lia]).
+    cbn. rewrite skipn_app, skipn_all, Nat.sub_diag. cbn.
+    pose proof (Z_to_str_digits i Hi) as D. rewrite E2, forallb_app in D. apply andb_prop in D as [D _]. exact D.
+Qed.
+
+(* injective under the guard *)
+Lemma rename_injective left raw names f1 f2 : NoDup raw -> names_ok left raw raw names -> rename_guard left raw = true ->
+  In f1 raw -> In f2 raw -> rename names f1 = rename names f2 -> f1 = f2.
+Proof.
+  intros ND OK G H1 H2 E.
+  destruct (names_ok_assoc _ _ _ _ ND OK H1) as [u1 [A1 I1]]. destruct (names_ok_assoc _ _ _ _ ND OK H2) as [u2 [A2 I2]].
+  unfold rename in E. rewrite A1, A2 in E. subst u2.
+  destruct OK as [_ F]. rewrite Forall_forall in F. pose proof (F _ I1) as F1. pose proof (F _ I2) as F2. cbn in F1, F2.
+  destruct F1 as [[L1 ->]|[L1 [NL1 [NR1 [i [Hi E1]]]]]], F2 as [[L2 E2]|[L2 [NL2 [NR2 [j [Hj E2]]]]]].
+  - exact E2.
+  - exfalso. apply (proj2 (str_mem_In _ _)) in H1. congruence.
+  - exfalso. subst u1. apply (proj2 (str_mem_In _ _)) in H2. congruence.
+  - destruct (list_eq_dec N.eq_dec f1 f2) as [|NE]; [assumption|]. exfalso.
+    rewrite E1 in E2. destruct (digit_collision f1 f2 i j Hi Hj E2 NE) as [X|X].
+    + unfold rename_guard in G. rewrite forallb_forall in G.
+      assert (C1 : In f1 (filter (fun f => str_mem f left) raw)) by (apply filter_In; auto).
+      assert (C2 : In f2 (filter (fun f => str_mem f left) raw)) by (apply filter_In; auto).
+      specialize (G f1 C1). rewrite forallb_forall in G. specialize (G f2 C2). rewrite X in G. discriminate.
+    + unfold rename_guard in G. rewrite forallb_forall in G.
+      assert (C1 : In f1 (filter (fun f => str_mem f left) raw)) by (apply filter_In; auto).
+      assert (C2 : In f2 (filter (fun f => str_mem f left) raw)) by (apply filter_In; auto).
+      specialize (G f2 C2). rewrite forallb_forall in G. specialize (G f1 C1). rewrite X in G. discriminate.
+Qed.
+
+(* ---- merged rows *)
+Section Merge.
+  Variable g : str -> str.
+  Definition merge_g (l r : row) : row := fold_left (fun acc kv => row_set (g (fst kv)) (snd kv) acc) r l.
+
+  Lemma merge_untouched r acc k : (forall f, In f (map fst r) -> g f <> k) -> assoc k (merge_g acc r) = assoc k acc.
+  Proof.
+    unfold merge_g. revert acc. induction r as [|[f v] t IH]; intros acc H; cbn; [reflexivity|].
+    rewrite IH by (intros f' Hf'; apply H; right; exact Hf'). apply row_set_other. intros X. apply (H f); [left; reflexivity|]. auto.
+  Qed.
+
+  Lemma merge_set r acc f v : NoDup (map g (map fst r)) -> In (f, v) r -> assoc (g f) (merge_g acc r) = Some v.
+  Proof.
+    unfold merge_g. revert acc. induction r as [|[f' v'] t IH]; intros acc ND H; cbn in *; [tauto|].
+    inversion ND as [|? ? N1 ND']; subst. destruct H as [H|H].
+    - injection H as -> ->. fold (merge_g (row_set (g f) v acc) t). rewrite merge_untouched; [apply row_set_same|].
+      intros f2 H2 X. apply N1. rewrite <- X. apply in_map. exact H2.
+    - apply IH; assumption.
+  Qed.
+
+  Lemma merge_keys r acc k : In k (map fst (merge_g acc r)) <-> In k (map fst acc) \/ In k (map g (map fst r)).
+  Proof.
+    unfold merge_g. revert acc. induction r as [|[f v] t IH]; intros acc; cbn; [tauto|].
+    rewrite IH, row_set_keys. destruct (row_has (g f) acc) eqn:E.
+    - apply row_has_In in E. split; [tauto|]. intros [H|[H|H]]; auto. subst. auto.
+    - rewrite in_app_iff. cbn. tauto.
+  Qed.
+
+  Lemma merge_nodup r acc : NoDup (map fst acc) -> NoDup (map fst (merge_g acc r)).
+  Proof.
+    unfold merge_g. revert acc. induction r as [|[f v] t IH]; intros acc ND; cbn; [exact ND|]. apply IH. apply row_set_nodup. exact ND.
+  Qed.
+End Merge.
+
+Lemma merge_row_is names l r : merge_row names l r = merge_g (rename names) l r.
+Proof. reflexivity. Qed.
+
+(* ---- the output *)
+Lemma assoc_map_keys {B} (F : str -> B) ks k : assoc k (map (fun k' => (k', F k')) ks) = if str_mem k ks then Some (F k) else None.
+Proof.
+  induction ks as [|h t IH]; cbn; [reflexivity|]. destruct (str_eqb k h) eqn:E; cbn; [apply str_eqb_eq in E; subst; reflexivity|exact IH].
+Qed.
+
+Lemma bucket_find_groups {A} (keyf : A -> str) l k :
+  bucket_find k (buckets keyf l) = match filter (in_class keyf k) l with [] => None | x => Some x end.
+Proof.
+  unfold bucket_find. rewrite buckets_are_groups. unfold groups. rewrite assoc_map_keys.
+  destruct (str_mem k (dedup (map keyf l))) eqn:E.
+  - apply (proj1 (str_mem_In _ _)) in E. apply (proj1 (dedup_In _ _)) in E. apply in_map_iff in E as [x [E1 E2]].
+    destruct (filter (in_class keyf k) l) eqn:F; [|reflexivity].
+    exfalso. assert (In x (filter (in_class keyf k) l)) by (apply filter_In; split; [exact E2|unfold in_class; rewrite E1; apply str_eqb_refl]).
+    rewrite F in H. exact H.
+  - destruct (filter (in_class keyf k) l) as [|x t] eqn:F; [reflexivity|]. exfalso.
+    assert (Hx : In x (filter (in_class keyf k) l)) by (rewrite F; left; reflexivity). apply filter_In in Hx as [H1 H2].
+    unfold in_class in H2. apply str_eqb_eq in H2.
+    assert (In k (dedup (map keyf l))) by (apply dedup_In; rewrite <- H2; apply in_map; exact H1).
+    apply (proj2 (str_mem_In _ _)) in H. congruence.
+Qed.
+
+Lemma join_spec lkey rkey flag left_data right_data :
+  exists names, right_names left_data right_data = Some names /\
+    names_ok (field_names left_data) (field_names right_data) (field_names right_data) names /\
+    join_data lkey rkey flag left_data right_data =
+    Some (flat_map (fun l => match filter (fun r => str_eqb (rkey r) (lkey l)) right_data with
+                             | [] => if negb flag then [l] else []
+                             | matches => map (merge_row names l) matches
+                             end) left_data).
+Proof.
+  destruct (right_names_spec left_data right_data) as [names [H1 H2]]. exists names. split; [exact H1|]. split; [exact H2|].
+  unfold join_data. rewrite H1. f_equal. apply flat_map_ext_in'. intros l _.
+  rewrite bucket_find_groups. unfold in_class. destruct (filter _ right_data); reflexivity.
+Qed.
+
+(* ================================================================== 4. grouping keys *)
+Lemma forallb_map' {X Y} (f : X -> Y) (p : Y -> bool) l : forallb p (map f l) = forallb (fun x => p (f x)) l.
+Proof. induction l as [|a l IH]; cbn; [reflexivity|]. rewrite IH. reflexivity. Qed.
+Import BS.Proofs.C14a BS.Proofs.C14b.
+
+Section KeyFacts.
+  Variable num_tok : num -> jnum.
+  Variable date_txt : hdate -> str.
+  Notation tj := (to_json num_tok date_txt).
+  Notation vjson := (value_json num_tok date_txt).
+
+  (* equal key text <-> equal canonical JSON value (C14: the encoder is injective on canonical values) *)
+  Lemma key_iff v1 v2 : wf (tj v1) = true -> wf (tj v2) = true -> (vjson v1 = vjson v2 <-> canon (tj v1) = canon (tj v2)).
+  Proof.
+    intros W1 W2. unfold value_json. split.
+    - apply BS.Proofs.C14.encode_injective; assumption.
+    - intros E. rewrite !BS.Proofs.C14.encode_is_render_canon by assumption. rewrite E. reflexivity.
+  Qed.
+
+  (* F23: a datetime and the string of its ISO text have the SAME key, whatever the datetime *)
+  Lemma key_datetime_collides_with_its_text d : vjson (CDate d) = vjson (CStr (date_txt d)).
+  Proof. reflexivity. Qed.
+
+  (* the kind of JSON value a scalar becomes: values of different kinds never share a key *)
+  Inductive jkind := KNull | KBool | KNum | KStr | KArr | KObj.
+  Definition jkind_of (v : jvalue) : jkind :=
+    match v with JNull => KNull | JBool _ => KBool | JNum _ => KNum | JStr _ => KStr | JArr _ => KArr | JObj _ => KObj end.
+  Lemma canon_kind v : jkind_of (canon v) = jkind_of v.
+  Proof. destruct v; reflexivity. Qed.
+  Lemma same_key_same_kind v1 v2 : wf (tj v1) = true -> wf (tj v2) = true -> vjson v1 = vjson v2 -> jkind_of (tj v1) = jkind_of (tj v2).
+  Proof. intros W1 W2 E. apply key_iff in E; auto. rewrite <- (canon_kind (tj v1)), <- (canon_kind (tj v2)), E. reflexivity. Qed.
+
+  (* null, booleans and strings: same key <-> the same value;  numbers: <-> the same token up to a dropped zero fraction *)
+  Lemma key_null_bool_str v1 v2 : wf (tj v1) = true -> wf (tj v2) = true ->
+    match v1, v2 with
+    | CNull, CNull => vjson v1 = vjson v2
+    | CBool a, CBool b => vjson v1 = vjson v2 <-> a = b
+    | CStr a, CStr b => vjson v1 = vjson v2 <-> a = b
+    | CNum a, CNum b => vjson v1 = vjson v2 <-> strip_num (num_tok a) = strip_num (num_tok b)
+    | CDate a, CDate b => vjson v1 = vjson v2 <-> date_txt a = date_txt b
+    | CDate a, CStr b => vjson v1 = vjson v2 <-> date_txt a = b
+    | _, _ => True
+    end.
+  Proof.
+    intros W1 W2. destruct v1, v2; try exact I; try reflexivity; rewrite (key_iff _ _ W1 W2); cbn; split; congruence.
+  Qed.
+
+  (* lists of category values: same key <-> pointwise the same canonical JSON value *)
+  Lemma cat_key_iff cats r1 r2 :
+    forallb (fun v => wf (tj v)) (cat_values cats r1) = true -> forallb (fun v => wf (tj v)) (cat_values cats r2) = true ->
+    (cat_key num_tok date_txt (Some cats) r1 = cat_key num_tok date_txt (Some cats) r2 <->
+     map (fun v => canon (tj v)) (cat_values cats r1) = map (fun v => canon (tj v)) (cat_values cats r2)).
+  Proof.
+    intros W1 W2. unfold cat_key. rewrite key_iff.
+    - cbn. unfold canon. cbn. rewrite !map_map. split; [intros H; injection H as H; exact H|intros ->; reflexivity].
+    - cbn. rewrite forallb_map'. exact W1.
+    - cbn. rewrite forallb_map'. exact W2.
+  Qed.
+End KeyFacts.
+
+(* ---- min / max of a class: Python's max/min over values of one kind are value_compare's (C11) *)
+Definition one_kind (vs : list cv) : Prop :=
+  Forall (fun v => exists n, v = CNum n /\ num_is_nan n = false) vs \/
+  Forall (fun v => exists s, v = CStr s) vs \/
+  Forall (fun v => exists us, v = CDate (HNaive us)) vs.
+
+Lemma py_lt_compare tz a b : one_kind [a; b] -> py_lt a b = Some (match compare tz a b with Lt => true | _ => false end).
+Proof.
+  intros [H|[H|H]]; inversion H as [|? ? Ha H']; inversion H' as [|? ? Hb _]; subst.
+  - destruct Ha as [x [-> Nx]], Hb as [y [-> Ny]]. cbn. rewrite Nx, Ny. cbn. unfold Compare.num_compare, sign3.
+    destruct (num_ltb x y); [reflexivity|]. destruct (num_eqvb x y); reflexivity.
+  - destruct Ha as [x ->], Hb as [y ->]. cbn. unfold sign3. destruct (str_compare x y) eqn:E; try reflexivity.
+    + destruct (str_eqb x y); reflexivity.
+    + destruct (str_eqb x y); reflexivity.
+  - destruct Ha as [x ->], Hb as [y ->]. cbn. unfold sign3. destruct (x <? y); [reflexivity|]. destruct (x =? y); reflexivity.
+Qed.
+
+Lemma one_kind_ok vs : one_kind vs -> Forall BS.Proofs.C11.ok vs.
+Proof.
+  intros [H|[H|H]]; eapply Forall_impl; try exact H; cbn; unfold BS.Proofs.C11.ok.
+  - intros v [n [-> N]]. cbn. rewrite N. reflexivity.
+  - intros v [x ->]. reflexivity.
+  - intros v [x ->]. reflexivity.
+Qed.
+
+Lemma one_kind_pair vs a b : one_kind vs -> In a vs -> In b vs -> one_kind [a; b].
+Proof.
+  intros [H|[H|H]] Ha Hb; rewrite Forall_forall in H; [left|right; left|right; right]; repeat constructor; auto.
+Qed.
+
+Lemma py_max_is_math_max tz v t : one_kind (v :: t) -> py_max_loop v t = Some (math_max tz (v :: t)).
+Proof.
+  intros K. cbn [math_max].
+  assert (G : forall best, In best (v :: t) -> forall l, incl l (v :: t) -> py_max_loop best l = Some (max_loop tz best l)).
+  { intros best Hb l. revert best Hb. induction l as [|x l IH]; intros best Hb Hl; cbn; [reflexivity|].
+    assert (Hx : In x (v :: t)) by (apply Hl; left; reflexivity).
+    rewrite (py_lt_compare tz best x (one_kind_pair _ _ _ K Hb Hx)).
+    pose proof (one_kind_ok _ K) as OK. rewrite Forall_forall in OK.
+    rewrite (BS.Proofs.C11.g_anti _ _ (BS.Proofs.C11.compare_glaws tz) best x (OK _ Hb) (OK _ Hx)).
+    assert (Hl' : incl l (v :: t)) by (intros y Hy; apply Hl; right; exact Hy).
+    destruct (compare tz best x); cbn; apply IH; auto. }
+  apply G; [left; reflexivity|]. intros y Hy. right. exact Hy.
+Qed.
+
+Lemma py_min_is_math_min tz v t : one_kind (v :: t) -> py_min_loop v t = Some (math_min tz (v :: t)).
+Proof.
+  intros K. cbn [math_min].
+  assert (G : forall best, In best (v :: t) -> forall l, incl l (v :: t) -> py_min_loop best l = Some (min_loop tz best l)).
+  { intros best Hb l. revert best Hb. induction l as [|x l IH]; intros best Hb Hl; cbn; [reflexivity|].
+    assert (Hx : In x (v :: t)) by (apply Hl; left; reflexivity).
+    rewrite (py_lt_compare tz x best (one_kind_pair _ _ _ K Hx Hb)).
+    assert (Hl' : incl l (v :: t)) by (intros y Hy; apply Hl; right; exact Hy).
+    destruct (compare tz x best); cbn; apply IH; auto. }
+  apply G; [left; reflexivity|]. intros y Hy. right. exact Hy.
+Qed.
+
+Lemma map_NoDup_in {X Y} (f : X -> Y) l : (forall a b, In a l -> In b l -> f a = f b -> a = b) -> NoDup l -> NoDup (map f l).
+Proof.
+  intros I ND. induction ND as [|x l N ND IH]; cbn; constructor.
+  - intros H. apply in_map_iff in H as [y [E Hy]]. apply N. rewrite (I x y); auto; [left; reflexivity|right; exact Hy].
+  - apply IH. intros a b Ha Hb. apply I; right; assumption.
 Qed.
